@@ -6,14 +6,27 @@
    has no request left is not schedulable.  Any number of threads, any number of requests per thread.
 
    LOCKED model (= the current code):
-       lock; read init; [key := randombytes(); init := 1;] my := nonce; n := nonce; nonce := (n+1) mod 2^64; unlock;
+       lock; read init; [SEEDING] my := nonce; n := nonce; nonce := (n+1) mod 2^64; unlock;
        generate(my, key)        -- Salsa20 with the local copy of the nonce; reads `key` outside the lock
+     SEEDING is not one step.  `randombytes(key, 32)` is a call (open/read on the entropy source, no access to the
+     generator state) followed by the delivery of the 32 key bytes in PIECES - as many as the source's reads return
+     (C19: short reads) - each piece one write to `key`; and the flag `init := 1` is a separate write.  The model
+     takes the number of pieces (`Seeding.chunks`, any number) and the ORDER of flag and key as parameters:
+       flagFirst = false   call; piece; …; piece; init := 1          (the repository's code)
+       flagFirst = true    init := 1; call; piece; …; piece          (a helper that marks the flag before it fills
+                                                                      the secret - invisible under this lock)
+     The theorems hold for every `Seeding`: under the whole-function mutex no request generates from a key that is
+     not completely written, whatever the order.  Model/Prng18Dcl.lean has the double-checked variant (the flag is
+     read outside the mutex), where the order matters.
    UNLOCKED model (= the code before the fix, kept as the documented witness of the defect):
        read init; [key := randombytes(); init := 1;] generate(nonce, key)   -- reads the GLOBAL nonce
        n := nonce; nonce := (n+1) mod 2^64                                 -- no lock anywhere
 
    `randombytes` is a parameter (`seedVal k` = the key delivered by its k-th call); the keystream function itself is
-   not modelled: a request's output is identified with the pair (nonce, key) it is generated from.
+   not modelled: a request's output is identified with the (nonce, key, missing pieces) it is generated from:
+   `key` names the value being / having been delivered into the key array, `miss` counts its pieces that are not yet
+   in place (`miss = 0`: the array holds exactly that key; `miss = chunks`: nothing written yet, the array still has
+   its previous content - all zero at process start).
    Ghost components (`acq`, `pend`, `out`, `trace`, `ticket`, `csidx`) record history; no step reads them.
    The granularity (each line above = one atomic step; the 8 nonce bytes read/written at once) is a modelling choice. -/
 namespace Nfl.Prng18
@@ -23,7 +36,8 @@ def W : Nat := 18446744073709551616   -- 2^64: the nonce is a 64-bit little-endi
 inductive Pc where
   | idle      -- between requests; next step: lock
   | rdInit    -- holds the mutex; next: read `init`
-  | seed      -- next: randombytes(key)
+  | seed      -- next: call randombytes(key, 32) (the k-th call will deliver `seedVal k`); nothing written yet
+  | fill      -- inside randombytes: next: one more piece of the key is written
   | wrInit    -- next: init := 1
   | rdNonceA  -- next: my_nonce := nonce
   | rdNonceB  -- next: n := nonce
@@ -34,6 +48,13 @@ deriving DecidableEq, Repr
 
 inductive Var where
   | init | key | nonce
+deriving DecidableEq, Repr
+
+/-- how the seeding step is carried out: in how many pieces the key bytes arrive, and whether the flag is set
+    before the key is filled (see the head of the file).  The repository's code is `flagFirst = false`. -/
+structure Seeding where
+  chunks : Nat
+  flagFirst : Bool
 deriving DecidableEq, Repr
 
 /-- one access to the shared generator state -/
@@ -59,6 +80,7 @@ structure Out where
   tid : Nat
   nonce : Nat
   key : Nat
+  miss : Nat := 0   -- pieces of `key` that were not yet written when the block was generated (0 = the complete key)
 deriving DecidableEq, Repr
 
 structure State where
@@ -66,6 +88,7 @@ structure State where
   lock : Option Nat           -- holder of the mutex
   init : Bool
   key : Nat
+  miss : Nat                  -- pieces of `key` not yet written into the key array
   nonce : Nat
   seeds : Nat                 -- number of calls of randombytes so far
   acq : List (Nat × Nat)      -- ghost: (thread, `nonce` at that moment) per mutex acquisition, chronological
@@ -79,9 +102,10 @@ def upd (f : Nat → TState) (t : Nat) (v : TState) : Nat → TState := fun t' =
 theorem upd_other (f : Nat → TState) {t t' : Nat} (v : TState) (h : t' ≠ t) : upd f t v t' = f t' := by simp [upd, h]
 
 /-- thread `t` performs its next step (locked model) -/
-def step (seedVal : Nat → Nat) (s : State) (t : Nat) : Option State :=
+def step (sd : Seeding) (seedVal : Nat → Nat) (s : State) (t : Nat) : Option State :=
   let ts := s.thr t
   let ev (v : Var) (w : Bool) (ins : Bool) : Event := ⟨t, v, w, ins, ts.csidx⟩
+  let filled : Pc := if sd.flagFirst then .rdNonceA else .wrInit     -- where randombytes returns to
   match ts.pc with
   | .idle =>
     if ts.todo = 0 then none
@@ -92,13 +116,16 @@ def step (seedVal : Nat → Nat) (s : State) (t : Nat) : Option State :=
                       thr := upd s.thr t { ts with pc := .rdInit, todo := ts.todo - 1, ticket := s.nonce, csidx := s.acq.length },
                       acq := s.acq ++ [(t, s.nonce)], pend := s.pend ++ [(t, s.nonce)] }
   | .rdInit =>
-    some { s with thr := upd s.thr t { ts with pc := if s.init then .rdNonceA else .seed },
+    some { s with thr := upd s.thr t { ts with pc := if s.init then .rdNonceA else if sd.flagFirst then .wrInit else .seed },
                   trace := s.trace ++ [ev .init false true] }
   | .seed =>
-    some { s with key := seedVal s.seeds, seeds := s.seeds + 1, thr := upd s.thr t { ts with pc := .wrInit },
+    some { s with key := seedVal s.seeds, miss := sd.chunks, seeds := s.seeds + 1,
+                  thr := upd s.thr t { ts with pc := if sd.chunks = 0 then filled else .fill } }
+  | .fill =>
+    some { s with miss := s.miss - 1, thr := upd s.thr t { ts with pc := if s.miss ≤ 1 then filled else .fill },
                   trace := s.trace ++ [ev .key true true] }
   | .wrInit =>
-    some { s with init := true, thr := upd s.thr t { ts with pc := .rdNonceA },
+    some { s with init := true, thr := upd s.thr t { ts with pc := if sd.flagFirst then .seed else .rdNonceA },
                   trace := s.trace ++ [ev .init true true] }
   | .rdNonceA =>
     some { s with thr := upd s.thr t { ts with pc := .rdNonceB, my := s.nonce },
@@ -112,19 +139,19 @@ def step (seedVal : Nat → Nat) (s : State) (t : Nat) : Option State :=
   | .unlock =>
     some { s with lock := none, thr := upd s.thr t { ts with pc := .gen } }
   | .gen =>
-    some { s with out := s.out ++ [⟨t, ts.my, s.key⟩], pend := s.pend.erase (t, ts.ticket),
+    some { s with out := s.out ++ [⟨t, ts.my, s.key, s.miss⟩], pend := s.pend.erase (t, ts.ticket),
                   thr := upd s.thr t { ts with pc := .idle },
                   trace := s.trace ++ [ev .key false false] }
 
-def run (seedVal : Nat → Nat) (s : State) : List Nat → Option State
+def run (sd : Seeding) (seedVal : Nat → Nat) (s : State) : List Nat → Option State
   | [] => some s
-  | t :: r => match step seedVal s t with
+  | t :: r => match step sd seedVal s t with
     | none => none
-    | some s' => run seedVal s' r
+    | some s' => run sd seedVal s' r
 
 /-- process start: nothing seeded, `key` zero (static storage), `nonce = n0`; thread `t` will issue `reqs t` requests -/
 def init (reqs : Nat → Nat) (n0 : Nat) : State :=
-  { thr := fun t => ⟨.idle, reqs t, 0, 0, 0, 0⟩, lock := none, init := false, key := 0, nonce := n0, seeds := 0,
+  { thr := fun t => ⟨.idle, reqs t, 0, 0, 0, 0⟩, lock := none, init := false, key := 0, miss := 0, nonce := n0, seeds := 0,
     acq := [], pend := [], out := [], trace := [] }
 
 /-- every request of every thread has been served -/
@@ -147,7 +174,7 @@ def seqServe : Nat → List Nat → List (Nat × Nat)
 /-- nonces thread `t` obtained, in its program order -/
 def served (s : State) (t : Nat) : List Nat := (s.out.filter (fun o => o.tid == t)).map (·.nonce)
 
-/-! ### the unlocked model (old code) -/
+/-! ### the unlocked model (old code; its seeding is kept as one write: the witnesses below do not need more) -/
 
 inductive UPc where
   | rdInit | seed | wrInit | gen | rdNonce | wrNonce
@@ -177,7 +204,7 @@ def ustep (seedVal : Nat → Nat) (s : UState) (t : Nat) : Option UState :=
     else some { s with thr := uupd s.thr t { ts with todo := ts.todo - 1, pc := if s.init then .gen else .seed } }
   | .seed => some { s with key := seedVal s.seeds, seeds := s.seeds + 1, thr := uupd s.thr t { ts with pc := .wrInit } }
   | .wrInit => some { s with init := true, thr := uupd s.thr t { ts with pc := .gen } }
-  | .gen => some { s with out := s.out ++ [⟨t, s.nonce, s.key⟩], thr := uupd s.thr t { ts with pc := .rdNonce } }
+  | .gen => some { s with out := s.out ++ [⟨t, s.nonce, s.key, 0⟩], thr := uupd s.thr t { ts with pc := .rdNonce } }
   | .rdNonce => some { s with thr := uupd s.thr t { ts with pc := .wrNonce, n := s.nonce } }
   | .wrNonce => some { s with nonce := (ts.n + 1) % W, thr := uupd s.thr t { ts with pc := .rdInit } }
 
